@@ -187,6 +187,27 @@ pub mod cells {
 }
 
 /// Append the cells of `item` to `t`.
+/// `<rpc-error>` as two cells (start tagged with the severity, end): the body is summarised by
+/// the `rpc::Error::read_xml` stub.
+pub const ERR_ERROR_START: Cell = Cell::start(BASE, n::RPC_ERROR).with_attrs(0, 0);
+pub const ERR_WARNING_START: Cell = Cell::start(BASE, n::RPC_ERROR).with_attrs(1, 0);
+pub const ERR_END: Cell = Cell::end(BASE, n::RPC_ERROR);
+
+/// Like [`push_item`] but with the two-cell `<rpc-error>` form.
+pub fn push_item_stubbed(t: &mut Tape, item: Item) {
+    match item {
+        Item::ErrError => {
+            t.push(ERR_ERROR_START);
+            t.push(ERR_END);
+        }
+        Item::ErrWarning => {
+            t.push(ERR_WARNING_START);
+            t.push(ERR_END);
+        }
+        other => push_item(t, other),
+    }
+}
+
 pub fn push_item(t: &mut Tape, item: Item) {
     match item {
         Item::Ok => t.push(cells::OK),
